@@ -68,6 +68,21 @@ def blt(ncand, nseats, lines, withdrawn=(), undeclared=(), tie=None, names=None,
     return '\n'.join(out) + '\n'
 
 
+def maprank(r, f, keep=None):
+    "apply f to every candidate id of a ranking (equal-rank groups are tuples); drop ids not in keep, and emptied groups"
+    out = []
+    for x in r:
+        if isinstance(x, tuple):
+            g = tuple(f(c) for c in x if keep is None or c in keep)
+            if len(g) == 1:
+                out.append(g[0])
+            elif g:
+                out.append(g)
+        elif keep is None or x in keep:
+            out.append(f(x))
+    return out
+
+
 def partial_rankings(n):
     "all strict partial rankings (non-empty) over 1..n"
     res = []
@@ -999,7 +1014,7 @@ def check_C10(res):
         vs.append(('tricky comments', base.replace('\n', ' /* precinct # 1 */\n', 1).replace('\n', '\n/* listed as "Leda" # once */\n', 1)))
         n = p['ncand']
         nicks = ['n%s' % chr(96 + i) for i in range(1, n + 1)]
-        bl = blt(n, p['nseats'], [(m, [nicks[c - 1] for c in r]) for m, r in lines], (), (), None)
+        bl = blt(n, p['nseats'], [(m, maprank(r, lambda c: nicks[c - 1])) for m, r in lines], (), (), None)
         bl = bl.replace('\n', '\n[nick %s]\n' % ' '.join(nicks), 1)
         if not p['withdrawn'] and not p['tie']:
             vs.append(('nicknames', bl))
@@ -1047,7 +1062,7 @@ def check_C11(res):
             m = {old: new for old, new in zip(range(1, n + 1), perm)}       # old cid -> new cid
             inv = {v: k for k, v in m.items()}
             nm = ['"%s"' % names[inv[i]] for i in range(1, n + 1)]
-            lines = [(mu, [m[c] for c in r]) for mu, r in p['lines']]
+            lines = [(mu, maprank(r, lambda c: m[c])) for mu, r in p['lines']]
             d2 = blt(n, p['nseats'], lines, tuple(m[c] for c in p['withdrawn']), (), [m[c] for c in tie], names=nm)
             try:
                 E2 = counted(d2, rule, opts)
@@ -1063,7 +1078,7 @@ def check_C11(res):
         if p['withdrawn'] and not p['tie']:
             keep = [c for c in range(1, n + 1) if c not in p['withdrawn']]
             m = {c: i + 1 for i, c in enumerate(keep)}
-            lines = [(mu, [m[c] for c in r if c in m]) for mu, r in p['lines']]
+            lines = [(mu, maprank(r, lambda c: m[c], keep=m)) for mu, r in p['lines']]
             lines = [(mu, r) for mu, r in lines if r]
             d3 = blt(len(keep), p['nseats'], lines, (), (), None, names=['"%s"' % names[c] for c in keep])
             try:
